@@ -12,20 +12,20 @@ import (
 
 // ReplayFile is what a violation is reported as.
 type ReplayFile struct {
-	Property    string   `json:"property"`
-	Rule        string   `json:"rule"`
-	Detail      string   `json:"detail"`
-	Seed        uint64   `json:"seed"`
-	Family      string   `json:"family"`
-	Minimised   bool     `json:"minimised"`
+	Property    string         `json:"property"`
+	Rule        string         `json:"rule"`
+	Detail      string         `json:"detail"`
+	Seed        uint64         `json:"seed"`
+	Family      string         `json:"family"`
+	Minimised   bool           `json:"minimised"`
 	Decisions   map[string]int `json:"decisions_per_stream"`
 	NonZero     map[string]int `json:"nonzero_decisions_per_stream"`
 	Original    map[string]int `json:"original_decisions_per_stream,omitempty"`
-	Spec        RunSpec  `json:"spec"` // includes the full decision vectors (flattened (arity, chosen) pairs per stream)
-	Scenario    []string `json:"scenario"`
-	History     []string `json:"history_tail"`
-	Trace       []string `json:"trace_tail,omitempty"`
-	HowToReplay string   `json:"how_to_replay"`
+	Spec        RunSpec        `json:"spec"` // includes the full decision vectors (flattened (arity, chosen) pairs per stream)
+	Scenario    []string       `json:"scenario"`
+	History     []string       `json:"history_tail"`
+	Trace       []string       `json:"trace_tail,omitempty"`
+	HowToReplay string         `json:"how_to_replay"`
 }
 
 func countDecisions(rec map[string][]uint32) (map[string]int, map[string]int) {
